@@ -5,6 +5,7 @@ import Pi2.MM.ConvSpec
 import Pi2.Gen.MMConv
 import Pi2.MM.ConvCompose
 import Pi2.MM.ConvShape
+import Pi2.KDefTie
 /-!
 # `pi2gen` — a second driver, for requests that evaluate GENERATED code (`Pi2/Gen/*`, regenerated from /repo on every run)
 
@@ -101,6 +102,103 @@ def mmconvRun (mdb : MM.MDb) (target : String) : String :=
     s!"(ok (pcs {strs (ConvSup.sortedStrs (Gen.MMConv.pattern_constructors σ fuel c))}) (prs {strs (ConvSup.sortedStrs (Gen.MMConv.proof_rules σ fuel c))}) (exported {strs (Gen.MMConv.exported_axioms σ fuel c)}) (axioms {" ".intercalate ((Gen.MMConv.axioms σ fuel c).map ax)}) (fps {" ".intercalate fps}) (mvs {" ".intercalate mvs}) (lemmas {strs (Gen.MMConv.lemmas σ fuel c)}) {lem} (consts {strs nm.consts}))"
   | r => resTag r
 
+/-! ## `kdef` / `khints`: the specification `sigOfDefinition` / `traceStepsR` and the generated builder on a Kore definition -/
+open PyK in
+def ksentOfSexp : Sexp → Option KSentence
+  | .list [.atom "import", n] => do pure (.«import» (← nat? n))
+  | .list [.atom "sort", n, .atom hk] => do pure (.sortDecl (← nat? n) (hk == "1"))
+  | .list [.atom "symbol", n, .list (.atom "vars" :: vs), .list (.atom "params" :: ps), srt, .list (.atom "attrs" :: as)] => do
+      pure (.symbolDecl (← nat? n) (← vs.mapM ksortOfSexp) (← ps.mapM ksortOfSexp) (← ksortOfSexp srt) (← as.mapM ktermOfSexp))
+  | .list [.atom "axiom", t] => do pure (.«axiom» (← ktermOfSexp t))
+  | .list [.atom "other"] => some .other
+  | _ => none
+
+open PyK in
+def kdefOfSexp : Sexp → Option KDefinition
+  | .list (.atom "def" :: ms) => do
+      let ms ← ms.mapM fun (m : Sexp) => match m with
+        | .list (.atom "module" :: n :: ss) => do pure ({ name := ← nat? n, sentences := ← ss.mapM ksentOfSexp } : KModuleDef)
+        | _ => none
+      pure { modules := ms }
+  | _ => none
+
+open PyK in
+def ktraceOfSexp : Sexp → Option PyLLVMTrace
+  | .list (.atom "trace" :: init :: items) => do
+      let items ← items.mapM fun (it : Sexp) => match it with
+        | .list [.atom "rule", o, .list kvs] => do
+            let kvs ← kvs.mapM fun (kv : Sexp) => match kv with
+              | .list [x, t] => do pure (← nat? x, ← ktermOfSexp t)
+              | _ => none
+            pure (PyTraceItem.rule (← nat? o) kvs)
+        | .list [.atom "config", t] => do pure (PyTraceItem.config (← ktermOfSexp t))
+        | .list [.atom "other"] => some PyTraceItem.otherEvent
+        | _ => none
+      pure { initial_config := ← ktermOfSexp init, trace := items }
+  | _ => none
+
+def b01 (b : Bool) : String := if b then "1" else "0"
+
+def symDeclStr (d : Kore.SymDecl) : String :=
+  s!"({d.name} {d.nSortParams} {d.nInputs} {b01 d.isCell} {b01 d.isFunctional} {b01 d.isKseq})"
+
+def ruleKindStr : KDefSpec.RuleKind → String
+  | .rewrite => "rw" | .equational => "eq"
+
+/-- `sigOfDefinition d` -/
+def specStr (ds : KDefSpec.DefSem) : String :=
+  let rules := ds.rules.map fun r => s!"({r.ordinal} {ruleKindStr r.kind} {npatToStr r.pattern} {natsToStr r.scope.mvs} {natsToStr r.scope.sortParams})"
+  s!"(spec (sig {natsToStr ds.sg.sorts} ({" ".intercalate (ds.sg.symbols.map symDeclStr)})) (rules {" ".intercalate rules}) (naxioms {ds.nAxioms}))"
+
+def axiomStr : PyK.PyAxiom → String
+  | .rewriting r => s!"{r.ordinal} rw {npatToStr r.pattern}"
+  | .equational r => s!"{r.ordinal} eq {npatToStr r.pattern}"
+
+def sortRefStr : PyK.PySortRef → String
+  | .sort s => s!"(s {s.name})" | .var v => s!"(sv {v.name})"
+
+def scopeStr (sc : PyK.PyScope) : String := s!"{natsToStr (sc._metavars.map (·.1))} {natsToStr (sc._sort_param_metavars.map (·.1))}"
+
+/-- the store the generated `from_kore_definition` returns (all modules, in allocation order) -/
+def lsStr (h : PyK.PyLS) : String :=
+  let mods := h.modules.map fun m =>
+    let sorts := m._sorts.map fun (_, s) => s!"({s.name} {b01 s.hooked})"
+    let syms := m._symbols.map fun (_, s) =>
+      s!"({s.name} {natsToStr (s.sort_params.map (·.name))} ({" ".intercalate (s.input_sorts.map sortRefStr)}) {sortRefStr s.output_sort} {b01 s.is_functional} {b01 s.is_ctor} {b01 s.is_cell})"
+    let axs := m._axioms.map fun (_, a) => s!"({axiomStr a})"
+    s!"(module {m._name} (sorts {" ".intercalate sorts}) (symbols {" ".intercalate syms}) (axioms {" ".intercalate axs}))"
+  let scopes := h._cached_axiom_scopes.map fun (o, sc) => s!"({o} {scopeStr sc})"
+  s!"(ls {" ".intercalate mods} (scopes {" ".intercalate scopes}) (counters {natsToStr h.counters}))"
+
+def hintStr (h : PyK.PyHint) : String :=
+  let σ := h.substitutions.map fun (k, p) => s!"({k} {npatToStr p})"
+  s!"(hint ({axiomStr h.«axiom»}) {npatToStr h.configuration_before} {npatToStr h.configuration_after} ({" ".intercalate σ}))"
+
+def pyStr {α} (f : α → String) : PyI.Py α → String
+  | none => "fuel" | some none => "(raise)" | some (some a) => f a
+
+def kdefRun (d : PyK.KDefinition) : String :=
+  let spec := match KDefSpec.sigOfDefinition d with | none => "(refused)" | some ds => specStr ds
+  let gen := pyStr lsStr (Gen.PyKDef.LanguageSemantics.from_kore_definition id fuel d)
+  s!"(kdef {spec} {gen})"
+
+def khintsRun (d : PyK.KDefinition) (tr : PyK.PyLLVMTrace) : String :=
+  let spec := match KDefSpec.sigOfDefinition d with
+    | none => "(refused)"
+    | some ds => match KDefSpec.traceStepsR ds tr with
+      | none => "(raise)"
+      | some (_, rules, steps) =>
+        let scopes := rules.map fun (r : KDefSpec.Rule) => s!"({r.ordinal} {natsToStr r.scope.mvs} {natsToStr r.scope.sortParams})"
+        s!"(hints {" ".intercalate (steps.map fun s => hintStr (KDefTie.hintOf s))} (scopes {" ".intercalate scopes}))"
+  let gen := match Gen.PyKDef.LanguageSemantics.from_kore_definition id fuel d with
+    | some (some h) =>
+      pyStr (fun (x : PyK.PyLS × List PyK.PyHint) =>
+        let scopes := x.1._cached_axiom_scopes.map fun (e : Nat × PyK.PyScope) => s!"({e.1} {scopeStr e.2})"
+        s!"(hints {" ".intercalate (x.2.map hintStr)} (scopes {" ".intercalate scopes}))") (Gen.PyKDef.get_proof_hints fuel h tr)
+    | some none => "(refused)"
+    | none => "fuel"
+  s!"(khints {spec} {gen})"
+
 def handle (line : String) : String :=
   match parseAll line with
   | none => "bad-request"
@@ -125,6 +223,26 @@ def handle (line : String) : String :=
     | "mmconv", [db, target] =>
       match mdbOfSexp db, strOfHexAtom target with
       | some mdb, some t => mmconvRun mdb t
+      | _, _ => "bad-request"
+    | "kdef", [d] =>
+      match kdefOfSexp d with
+      | some d => kdefRun d
+      | none => "bad-request"
+    | "kcount", [d, t] =>
+      -- the generated `count_simplifications` on the conversion of a Kore term (generated `from_kore_definition`, `convert_pattern`)
+      match kdefOfSexp d, ktermOfSexp t with
+      | some d, some t =>
+        (match Gen.PyKDef.LanguageSemantics.from_kore_definition id fuel d with
+         | some (some h) =>
+           (match Gen.PyKore.LanguageSemantics.convert_pattern (PyK.semView h) t with
+            | some (some p) => pyStr (fun (c : Nat) => s!"(count {c})") (Gen.PyKDef.LanguageSemantics.count_simplifications id fuel h p)
+            | _ => "(raise)")
+         | some none => "(refused)"
+         | none => "fuel")
+      | _, _ => "bad-request"
+    | "khints", [d, tr] =>
+      match kdefOfSexp d, ktraceOfSexp tr with
+      | some d, some tr => khintsRun d tr
       | _, _ => "bad-request"
     | "mmtext", [db] =>
       -- the translated Encoder (Pi2/Gen/MMAst.lean) through the Printer model (Pi2/MMAstSupport.lean): the TEXT, as a hex atom
